@@ -253,6 +253,13 @@ def sec_constant(rec, patches=None):
     _sc(rec)
 
 
+def sec_units(rec, patches=None):
+    """every loader / loader-group entry point converts max_shifts (nm) with the scale of the loader the molecules belong to: executed by C01's units section"""
+    from .c01 import sec_units as _su
+
+    _su(rec, patches=patches)
+
+
 def sec_conformance(rec):
     """_upsampled_dft output shape; BlindNP leaves everything but argmax untouched"""
     from acryo.backend._pcc import _upsampled_dft
@@ -291,7 +298,7 @@ def sec_conformance(rec):
 
 
 def sections(tier):
-    S = [("conformance", "checks.c05", "sec_conformance", {}), ("normalize", "checks.c05", "sec_normalize", {}), ("constant-subvolume", "checks.c05", "sec_constant", {}),
+    S = [("conformance", "checks.c05", "sec_conformance", {}), ("normalize", "checks.c05", "sec_normalize", {}), ("constant-subvolume", "checks.c05", "sec_constant", {}), ("loader-units", "checks.c05", "sec_units", {}),
          ("upsample-int", "checks.c05", "sec_upsample", {"coarse": "int"}), ("upsample-ceil", "checks.c05", "sec_upsample", {"coarse": "ceil"})]
     boxes = [(4, 4, 4), (5, 6, 7)] if quick(tier) else [(4, 4, 4), (5, 6, 7), (8, 8, 8), (7, 4, 9)]
     oth = [(0.0, 1.3)] if quick(tier) else [(0.0, 1.3), (0.5, 0.0), (2.0, 0.7)]
